@@ -438,6 +438,51 @@ def v9(ctx, rid):
     option_reaches_config(ctx, rid, 'validate_data_during_index_regen', 'set_validate_data_during_index_regen')
 
 
+def v10(ctx, rid):
+    """"reading that record fails with an error": an error of Entry::load / load_data in a storage read path is never turned into a
+    successful answer - from the Err edge of the load no Ok return is reachable"""
+    prog = ctx.prog
+    n = 0
+    for f in prog.fns.values():
+        if f.file != 'src/storage/core.rs' or not f.is_coroutine:
+            continue
+        for c in f.calls:
+            if c.name == 'poll' or c.bb not in f.reachable() or not any(t in ('blob::entry::Entry::load', 'blob::entry::Entry::load_data') for t in prog.resolve(c)):
+                continue
+            n += 1
+            key = 'load-error-propagates|%s|%s' % (prog.fns[f.id].root, c.name)
+            edges = core.err_edge(f, c)
+            oks = [bb for (bb, k, _) in core.exit_defs(f) if k == 'ok' and bb in f.reachable()]
+            if edges and any(o in f.reach_from(edges) for o in oks):
+                ctx.bad(rid, key, c.where(), 'an error of `%s` (e.g. a data checksum mismatch) can end in an Ok answer of the read: altered bytes are reported as NotFound / served instead of failing' % c.name)
+            else:
+                ctx.ok(rid, key, c.where(), 'the Err edge only reaches error returns')
+    if n < 1:
+        raise core.AnchorLost('Entry::load calls in storage read paths: %d' % n)
+
+
+def v11(ctx, rid):
+    """the sizes written into a record header are the lengths of the bytes the same serializer produces: Meta::serialized_size and
+    Header::serialized_size ask bincode (serialized_size / the length of the serialized buffer), they do not re-compute the
+    encoding by hand (a hand count of characters instead of bytes shifts data_offset into the metadata)"""
+    prog = ctx.prog
+    n = 0
+    for f in prog.fns.values():
+        if f.file != 'src/record/record.rs' or f.id != prog.fns[f.id].root or not f.id.endswith('::serialized_size'):
+            continue
+        n += 1
+        key = 'size-from-serializer|%s' % f.id
+        calls = [c for g in prog.family(f.id) for c in prog.fns[g].calls if c.bb in prog.fns[g].reachable()]
+        asks = [c for c in calls if c.decl_crate == 'bincode' and c.name in ('serialized_size', 'serialize', 'serialize_into')]
+        hand = [c for c in calls if c.name in ('chars', 'count', 'len', 'size_of', 'size_of_val') and not c.from_expansion]
+        if asks and not hand:
+            ctx.ok(rid, key, f.where(), 'asks bincode')
+        else:
+            ctx.bad(rid, key, f.where(), 'the serialized size is computed by hand (%s) instead of by the serializer that writes the bytes: when the two disagree, meta_size / data_offset point into the wrong bytes and the record does not read back' % sorted({c.name for c in hand}))
+    if n < 2:
+        raise core.AnchorLost('serialized_size functions in src/record/record.rs: %d' % n)
+
+
 RULES = [
     Rule('C05.V1', 'no record data leaves a reading function without an ok data-checksum audit', v1, 4),
     Rule('C05.V2', 'a header deserialised from file bytes is accepted only after magic + header-CRC validation', v2, 3),
@@ -448,5 +493,7 @@ RULES = [
     Rule('C05.V7', 'the sequential scan reads record data only after advancing the cursor by header size and meta size', v7, 1),
     Rule('C05.V8', 'the data-validation flag handed to the regeneration scan is the configured flag and nothing else', v8, 2),
     Rule('C05.V9', 'the configured data-validation flag reaches every blob config unchanged (builder forwards it, no constructor resets it)', v9, 3),
+    Rule('C05.V10', 'an error of Entry::load in a storage read path never ends in an Ok answer', v10, 1),
+    Rule('C05.V11', 'record size fields are computed by the serializer, not by hand', v11, 2),
     Rule('C05.V5', 'the header CRC written at reservation time is computed after the offset was patched', v5, 1),
 ]
